@@ -553,6 +553,73 @@ def recvloop_scenario(ctx):
     return {'script': script}
 
 
+NESTED_LAYOUTS = [
+    ('b', 0, [('m', 0), ('b', 1, [('m', 1)]), ('m', 2)]),
+    ('b', 0, [('b', 1, [('m', 1)]), ('m', 0)]),
+    ('b', 0, [('m', 0), ('m', 2), ('b', 1, [('m', 1)])]),
+    ('b', 0, [('b', 1, [('m', 1), ('b', 2, [('m', 3)]), ('m', 4)]), ('m', 0)]),
+    ('b', 0, [('m', 0), ('b', 1, [('m', 1)]), ('b', 2, [('m', 3)]), ('m', 2)]),
+]
+
+
+def nested_scenario(ctx):
+    """a bundle with nested bundles at any position: every message is dispatched once, with the time of ITS OWN
+    enclosing bundle, in non-decreasing time"""
+    import struct
+    from sc3.base import main as _m, clock as clk
+    main = _m.main
+    live = main._osc_interface
+    li = ctx.choose('layout', len(NESTED_LAYOUTS))
+    order = ctx.choose('times', 3)          # which of the three timetags is the earliest / latest
+    rec = {'mode': 'rt', 'kind': 'nested', 'sel': {'layout': li, 'times': order}}
+    now = main.elapsed_time()
+    secs = [[now + 10, now + 60, now + 30], [now + 60, now + 10, now + 30], [now + 30, now + 60, now + 10]][order]
+    tts = [clk.SystemClock.elapsed_time_to_osc(x) for x in secs]
+
+    def enc(node, expect):
+        if node[0] == 'm':
+            return b'/x\x00\x00,i\x00\x00' + struct.pack('>i', node[1])
+        out = b'#bundle\x00' + struct.pack('>Q', tts[node[1]])
+        for el in node[2]:
+            if el[0] == 'm':
+                expect[el[1]] = tts[node[1]]
+            e = enc(el, expect)
+            out += struct.pack('>i', len(e)) + e
+        return out
+    expect = {}
+    dg = enc(NESTED_LAYOUTS[li], expect)
+    got = []
+    clone = object.__new__(type(live))
+    clone.__dict__.update(live.__dict__)
+    clone._msg_dispatch = lambda address, time, *msg: got.append((list(msg), time))
+    clone._handle_request(dg, ('127.0.0.1', 9001))
+
+    def bad(what):
+        raise Violation(f'bundle layout {NESTED_LAYOUTS[li]} (times of bundles 0, 1, 2: +{secs[0] - now:.0f}, '
+                        f'+{secs[1] - now:.0f}, +{secs[2] - now:.0f} s): {what}', None, {'key': 'c18:nested', 'replay': rec})
+    ids = sorted(m_[1] for m_, _ in got if len(m_) == 2 and m_[0] == '/x')
+    if ids != sorted(expect):
+        bad(f'messages dispatched {[m_ for m_, _ in got]}, contained {sorted(expect)}')
+    for m_, t in got:
+        want = clk.SystemClock.osc_to_elapsed_time(expect[m_[1]])
+        if abs(t - want) > 1e-6:
+            bad(f'message {m_[1]} dispatched with time now{t - now:+.3f} s, its enclosing bundle says now{want - now:+.3f} s')
+    if any(b[1] < a[1] - 1e-9 for a, b in zip(got, got[1:])):
+        bad(f'dispatch order {[m_[1] for m_, _ in got]} is not in non-decreasing time')
+    ctx.obligations += 1
+    ctx.discharged += 1
+    ctx.note('nested')
+    return {'layout': li}
+
+
+def job_nested(j):
+    st = explore(nested_scenario, max_paths=1000, timeout_ms=5000, stop_on_violation=True)
+    d = st.as_dict()
+    for v in d['violations']:
+        v['data']['replay']['what'] = v['what']
+    return d
+
+
 def job_recvloop(j):
     st = explore(recvloop_scenario, max_paths=5000, timeout_ms=5000, stop_on_violation=True)
     d = st.as_dict()
@@ -846,6 +913,12 @@ def replay(rec):
         except Violation as v:
             return v.what
         return None
+    if kind == 'nested':
+        try:
+            nested_scenario(_CCtx(dict(rec['sel'])))
+        except Violation as v:
+            return v.what
+        return None
     if kind == 'filters':
         try:
             filters_scenario(_CCtx(dict(rec['sel'])))
@@ -942,6 +1015,9 @@ def main(tier, seed):
     for r in run_jobs('vf.props.c18', 'job_recvloop', [dict()], 'rt'):
         chk.add('recvloop', r)
     chk.require_notes('recvloop', ['recvloop'])
+    for r in run_jobs('vf.props.c18', 'job_nested', [dict()], 'rt'):
+        chk.add('nested_bundles', r)
+    chk.require_notes('nested_bundles', ['nested'])
     for r in run_jobs('vf.props.c18', 'job_bundle', [dict()], 'rt'):
         chk.add('hostile_bundle', r)
     for r in run_jobs('vf.props.c18', 'job_registry', [dict(nops=4 if tier == 'quick' else 5)], 'rt'):
